@@ -12,12 +12,13 @@ import (
 
 // Mutant describes a deliberate change applied through an in-memory overlay.
 type Mutant struct {
-	Name    string `json:"name"`
-	File    string `json:"file"` // relative to the repo
-	Old     string `json:"old"`
-	New     string `json:"new"`
-	Expect  string `json:"expect"` // regexp over failing obligation names; "" = must keep verifying (harmless-edit canary)
-	Comment string `json:"comment"`
+	Name    string   `json:"name"`
+	File    string   `json:"file"` // relative to the repo
+	Old     string   `json:"old"`
+	New     string   `json:"new"`
+	Expect  string   `json:"expect"` // regexp over failing obligation names; "" = must keep verifying (harmless-edit canary)
+	Comment string   `json:"comment"`
+	Imports []string `json:"imports"` // import paths the mutated file additionally needs
 }
 
 func applyMutant(m Mutant) (map[string][]byte, error) {
@@ -31,6 +32,16 @@ func applyMutant(m Mutant) (map[string][]byte, error) {
 		return nil, fmt.Errorf("mutant %s: old text not found in %s", m.Name, m.File)
 	}
 	s = strings.Replace(s, m.Old, m.New, 1)
+	for _, imp := range m.Imports {
+		if strings.Contains(s, "\""+imp+"\"") {
+			continue
+		}
+		i := strings.Index(s, "import (")
+		if i < 0 {
+			return nil, fmt.Errorf("mutant %s: no import block in %s", m.Name, m.File)
+		}
+		s = s[:i+len("import (")] + "\n\t\"" + imp + "\"" + s[i+len("import ("):]
+	}
 	return map[string][]byte{path: []byte(s)}, nil
 }
 
